@@ -328,6 +328,24 @@ func ExceptionGivenMatches(err, exc Object) bool {
 	return err == exc
 }
 
+// StopIterationValue returns the value carried by a StopIteration
+// raised as err (the return value of a generator), or None.
+func StopIterationValue(err error) Object {
+	var exc *Exception
+	switch x := err.(type) {
+	case ExceptionInfo:
+		exc, _ = x.Value.(*Exception)
+	case *Exception:
+		exc = x
+	}
+	if exc != nil {
+		if args, ok := exc.Args.(Tuple); ok && len(args) > 0 {
+			return args[0]
+		}
+	}
+	return None
+}
+
 // IsException matches the result of recover to an exception
 //
 // # For use to catch a single python exception from go code
